@@ -14,4 +14,13 @@ def step (base : Bool) (j : Json) : Except String String := do
   | some true => pure "refuse"
   | some false => pure "accept"
 
+def stepWatch (base : Bool) (j : Json) : Except String String := do
+  let F := if base then Zeno.Base.Disk.facts else Zeno.Gen.Disk.facts
+  let lows ← arr j "lows"
+  let lows := lows.toList.map (fun v => match v with | .bool b => b | _ => false)
+  let ps := Model.Disk.watch F lows
+  -- the start-up check refuses exactly when the observation is `low`
+  let out := (lows.zip ps).map (fun (low, p) => (if p then "paused" else "run") ++ (if low then "+refuse-start" else ""))
+  pure (",".intercalate out)
+
 end Driver.Disk
